@@ -1870,7 +1870,9 @@ def get_alpha(rho, sigma, tau):
     cond = rho < ALPHA_TOL
     rho = np.maximum(ALPHA_TOL, rho)
     tau0 = get_uniform_tau(rho)
-    tauw = get_single_orbital_tau(rho, np.sqrt(sigma))
+    # rho is already clamped to ALPHA_TOL, so no further regulariser is needed;
+    # this is the same tauw that dalpha differentiates.
+    tauw = sigma / (8 * rho)
     # TODO this numerical stability trick is a bit of a hack.
     # Should make spline support small negative alpha
     # instead, for the sake of clean code and better stability.
